@@ -201,6 +201,8 @@ def main(argv=None):
     bounded_runs = []
     total_paths = total_queries = 0
     solver_time = 0.0
+    global BACKENDS
+    BACKENDS = {"interval": 0, "z3_fresh": 0, "cvc5_asked": 0, "cvc5_unsat": 0}
     for r in results:
         cname = r["contract"]
         c = byname[cname][1]
@@ -208,6 +210,8 @@ def main(argv=None):
         total_paths += st.get("paths", 0)
         total_queries += st.get("queries", 0)
         solver_time += st.get("solver_time", 0.0)
+        for k in BACKENDS:
+            BACKENDS[k] += st.get(k, 0)
         if r.get("error"):
             (crashes if r["error"].startswith(("HARNESS", "TASK")) else undecided).append(
                 "%s[%s]: %s" % (cname, case_id(r["case"]), r["error"]))
@@ -574,7 +578,15 @@ def write_evidence(pid, tier, seed, cs, results, obligations, n_ob, n_dis, stand
         "contracts": sorted({c.name for (_, c) in cs}),
         "cases": len(results),
         "paths": total_paths,
-        "queries_by_backend": {"z3": total_queries},
+        "queries_by_backend": {
+            "z3": total_queries,
+            "z3 (fresh non-incremental instance, for queries the incremental solver left open)":
+                BACKENDS["z3_fresh"],
+            "cvc5 1.0.3 (asked about queries both z3 instances left open)": BACKENDS["cvc5_asked"],
+            "cvc5 answered unsat": BACKENDS["cvc5_unsat"],
+            "interval evaluator (branch conditions implied by the declared input ranges; no solver call)":
+                BACKENDS["interval"],
+        },
         "solver_time_s": round(solver_time, 2),
         "counter_models_replayed": models_replayed,
         "obligation_status": {k: sum(1 for v in obligations.values() if v == k)
